@@ -82,6 +82,59 @@ class Suci(Stream):
         return None
 
 
+class SuciProc(Stream):
+    """the identity the REAL RegisterUE / DeregisterUE put on the wire (first message of the procedure, harness firstmsg) for
+    sequences of UEs in one process: consecutive indices, index 10000 (same RAN-UE-NGAP-ID as index 0), subscribers of
+    different PLMNs whose IMSIs end in the same digits"""
+    name = "suci-procedures"
+    sub = "firstmsg"
+    requires = ["Dec", "SuciEnc", "Suci", "C11Check"]
+    shard = 60
+    model_check = None
+    spec_check = ("(fun c : list N * list N * list N * list N * bool => let '(mcc, mnc, msin, plain, isreg) := c in "
+                  "match mobile_identity_of (if isreg then REGISTRATION_REQUEST else DEREGISTRATION_REQUEST_UE_ORIG) plain with "
+                  "Some mi => suci_is mi mcc mnc msin | None => false end)")
+
+    def generate(self, rng, tier):
+        cs = []
+
+        def add(mcc, mnc, msin, n):
+            imsi = mcc + mnc + msin
+            supi = "%0*d" % (len(imsi), int(imsi) + n)
+            for proc in ("register", "deregister"):
+                cs.append({"proc": proc, "imsi": imsi, "n": n, "mnc": mnc, "mcc": mcc, "supi": supi})
+        tail = rng.digits(4)
+        groups = 6 if tier == "quick" else 40
+        for g in range(groups):
+            mnclen = 2 + g % 2
+            mcc, mnc = rng.digits(3), rng.digits(mnclen)
+            msin = rng.digits(rng.choice([5, 6, 10 - (mnclen - 2) - 4])) + tail      # every group ends in the same four digits
+            for n in (0, 1, 10000, 2):
+                if int(msin) + n < 10 ** len(msin):
+                    add(mcc, mnc, msin, n)
+        return cs
+
+    def go_case(self, c):
+        return {k: c[k] for k in ("proc", "imsi", "n", "mnc", "mcc")}
+
+    def classify(self, c, o):
+        return "%s/mnc%d/n=%d" % (c["proc"], len(c["mnc"]), c["n"])
+
+    def key(self, c, o):
+        return c["proc"] + c["supi"]
+
+    def direct_check(self, c, o):
+        if "panic" in o or "read_err" in o or "decode_err" in o or not o.get("plain"):
+            return "the procedure did not write a decodable first message: %r" % ({k: v for k, v in o.items() if k != "msg"},)
+        if o.get("supi") != "imsi-" + c["supi"]:
+            return "CreateUE gave %s for IMSI %s index %d" % (o.get("supi"), c["imsi"], c["n"])
+        return None
+
+    def coq_case(self, c, o):
+        npl = len(c["mcc"]) + len(c["mnc"])
+        return "(%s, %s, %s, %s, %s)" % (dl(c["mcc"]), dl(c["mnc"]), dl(c["supi"][npl:]), C.cN(bytes.fromhex(o.get("plain", ""))), C.cbool(c["proc"] == "register"))
+
+
 class PlmnNas(Stream):
     name = "plmnnas"
     sub = "plmnnas"
@@ -108,7 +161,7 @@ class C11(Check):
     pid = "C11"
     prop_files = ["Properties/C11.v"]
     extra_targets = ["Model/C11Check.vo"]
-    streams = [Suci(True), Suci(False), PlmnNas()]
+    streams = [Suci(True), Suci(False), SuciProc(), PlmnNas()]
     trusted = ["Coq 8.16.1 kernel incl. vm_compute (no native_compute)", "no axioms (Print Assumptions: closed under the global context)",
                "hand-written model Model/SuciEnc.v of EncodeSuci/hexCharToByte/Buffer[1:4]/PlmnIDToNas tied by the correspondence streams suci, suci-malformed, plmnnas",
                "Spec/Suci.v: TS 24.501 9.11.3.4 SUCI decoder and 3-octet PLMN coding transcribed from memory of the standard",
